@@ -800,9 +800,14 @@ class CIMachine(FormatMachine):
                     forest[uid]["release"]["internal"] = False
         if vt < (0, 3):
             c = p["compose"]
-            if c["respin"] >= 10 ** 7 or any(ch.isdigit() for ch in "") :
+            if c["respin"] >= 10 ** 7:
                 return "noop-respin"
             import re as _re
+            # such a document can only hold what its id says: content whose date / type / respin fields differ from the id
+            # is not expressible in it
+            _suffix = {"production": "", "ci": ".ci", "nightly": ".n", "test": ".t", "development": ".d"}
+            if not isinstance(c.get("id"), str) or not c["id"].endswith("-%s%s.%d" % (c["date"], _suffix.get(c["type"], "?"), c["respin"])):
+                return "noop-fields-not-in-id"
             if _re.search(r"\d{8}", exp["release"]["version"] + (exp["base_product"] or {}).get("version", "")):
                 return "noop-version-digits"
             c.pop("date", None)
